@@ -5,7 +5,7 @@ import (
 	"sort"
 	"strings"
 
-	"golang.org/x/tools/go/ssa"
+	"ikeverif/checker/xt/ssa"
 )
 
 // SelfTest analyses the fixture module (/verif/fixtures): every MustFlag_* miniature must produce a
